@@ -1,7 +1,7 @@
 (* Shared decoding for the kinds 0203 (C02) and 0501 (C05): the real DiskWriter driven by the
    real doubleWalkDiff on a scratch directory (harness/c05.go) against Model/AbsDest.v. *)
 From Coq Require Import List NArith Bool.
-From FS Require Import Sx Model.Path Model.Stat Model.Diff Model.AbsDest Glue.DiffG.
+From FS Require Import Sx Model.Path Model.Stat Model.Diff Model.AbsDest Model.Hardlinks Glue.DiffG.
 Import ListNotations.
 Open Scope N_scope.
 Open Scope bool_scope.
@@ -12,7 +12,9 @@ Fixpoint le_bytes (k : nat) (n : N) : bytes :=
 Definition le64 (n : N) : bytes := le_bytes 8 n.
 Definition hdr (st : stat) : bytes :=
   le64 (st_mode st) ++ le64 (st_uid st) ++ le64 (st_gid st) ++ le64 (st_size st) ++ le64 (st_mtime st)
-  ++ le64 (st_devmajor st) ++ le64 (st_devminor st) ++ st_path st ++ [0] ++ st_linkname st ++ [0].
+  ++ le64 (st_devmajor st) ++ le64 (st_devminor st) ++ st_path st ++ [0] ++ st_linkname st ++ [0]
+  (* the xattrs, in key order: key NUL length value *)
+  ++ concat (map (fun kv => fst kv ++ [0] ++ le64 (N.of_nat (length (snd kv))) ++ snd kv) (st_xattrs st)).
 Definition Hid (b : bytes) : bytes := b.
 
 Definition dec_entry (s : sx) : option entry :=
@@ -21,7 +23,10 @@ Definition dec_entry (s : sx) : option entry :=
 Definition rmode_of (n : N) : rmode := if N.eqb n 0 then Fresh else Merge.
 
 (* ---- the receiver's Filter, selectable by code (mirrors harness/c05.go c05Filter):
-        0 none; 1 umask 022; 2 ownership reset to 7:8; 3 umask 027 + mtime truncated to seconds ---- *)
+        0 none; 1 umask 022; 2 ownership reset to 7:8; 3 umask 027 + mtime truncated to seconds;
+        4 reject the subtree "b" (the entry b and everything below it: result false);
+        5 every xattr VALUE patched (first byte xor 0xff: in Go, in place in the clone);
+        6 xattr map edited (entry user.z deleted, entry user.a = 01 added) + uid 7 ---- *)
 Definition set_owner (s : stat) (u g : N) : stat :=
   {| st_path := st_path s; st_mode := st_mode s; st_uid := u; st_gid := g; st_size := st_size s;
      st_mtime := st_mtime s; st_linkname := st_linkname s; st_devmajor := st_devmajor s;
@@ -30,11 +35,26 @@ Definition set_mtime (s : stat) (t : N) : stat :=
   {| st_path := st_path s; st_mode := st_mode s; st_uid := st_uid s; st_gid := st_gid s; st_size := st_size s;
      st_mtime := t; st_linkname := st_linkname s; st_devmajor := st_devmajor s;
      st_devminor := st_devminor s; st_xattrs := st_xattrs s |}.
+Definition set_xattrs (s : stat) (x : list (bytes * bytes)) : stat :=
+  {| st_path := st_path s; st_mode := st_mode s; st_uid := st_uid s; st_gid := st_gid s; st_size := st_size s;
+     st_mtime := st_mtime s; st_linkname := st_linkname s; st_devmajor := st_devmajor s;
+     st_devminor := st_devminor s; st_xattrs := x |}.
+Definition rejected_path (p : bytes) : bool := bytes_eqb p [98] || has_prefix [98; 47] p.
+Definition user_z : bytes := [117; 115; 101; 114; 46; 122].
+Definition user_a : bytes := [117; 115; 101; 114; 46; 97].
 Definition wf_of (code : N) (p : bytes) (s : stat) : bool * stat :=
-  if N.eqb code 1 then (true, set_mode s (N.ldiff (st_mode s) 18))
+  if N.eqb code 4 then (negb (rejected_path p), s)
+  else if N.eqb code 5 then
+    (true, set_xattrs s (map (fun kv => (fst kv, match snd kv with b :: r => N.lxor b 255 :: r | [] => [] end)) (st_xattrs s)))
+  else if N.eqb code 6 then
+    (true, set_owner (set_xattrs s ((user_a, [1]) :: filter (fun kv => negb (bytes_eqb (fst kv) user_z) && negb (bytes_eqb (fst kv) user_a))
+                                                          (st_xattrs s))) 7 (st_gid s))
+  (* (the permission bits of a symbolic link cannot be set on Linux: the mode masks leave them alone) *)
+  else if N.eqb code 1 then (true, if mode_is_symlink (st_mode s) then s else set_mode s (N.ldiff (st_mode s) 18))
   else if N.eqb code 2 then (true, set_owner s 7 8)
   else if N.eqb code 3 then
-    (true, set_mtime (set_mode s (N.ldiff (st_mode s) 23)) (st_mtime s - N.modulo (st_mtime s) 1000000000))
+    (true, set_mtime (if mode_is_symlink (st_mode s) then s else set_mode s (N.ldiff (st_mode s) 23))
+                     (st_mtime s - N.modulo (st_mtime s) 1000000000))
   else (true, s).
 
 (* ---- canonical form of a destination entry:
@@ -101,9 +121,14 @@ Record rcase := {
 Definition dec_rcase (input impl : sx) : option rcase :=
   match input, impl with
   | SL (SN dc :: SN mc :: SN _ :: a :: b :: rest), SL [w; SL rq; SL nt; SL fin; er] =>
-    fc <- match rest with [] => Some 0 | [SN c] => Some c | _ => None end ;;
+    fc <- match rest with [] => Some 0 | [SN c] => Some c | [SN c; _] => Some c | _ => None end ;;
     A0 <- sx_list dec_entry a ;;
-    B <- sx_list dec_entry b ;;
+    B0 <- sx_list dec_entry b ;;
+    (* kind 0502 (seventh element): the listing goes through the real Send, whose hard-link filter
+       (WithHardlinkReset, Model/Hardlinks.v) rewrites link names that name no earlier entry *)
+    let B := match rest with
+             | [_; _] => combine (hardlink_reset (map fst B0)) (map snd B0)
+             | _ => B0 end in
     W <- sx_list dec_stat w ;;
     rqs <- omap sx_B rq ;;
     nts <- omap dec_notif nt ;;
@@ -208,7 +233,13 @@ Definition c05_spec (c : rcase) : bool :=
   rc_err c
   || ((negb (case_honest c) || replay_ok c)
       && match rc_mode c with
-         | Fresh => negb (case_wf c) || notify_exact_b (rc_F c) (rc_differ c) (map fst (rc_A c)) (map fst (rc_B c)) (rc_notifs c)
+         | Fresh =>
+           (* a filter that rejects a whole subtree: nothing is executed or notified there; outside it
+              the notifications are exactly the specified changes *)
+           let keepS := fun s : stat => fst (rc_wf c (st_path s) s) in
+           negb (case_wf c)
+           || (notify_exact_b (rc_F c) (rc_differ c) (filter keepS (map fst (rc_A c))) (filter keepS (map fst (rc_B c))) (rc_notifs c)
+               && forallb (fun n => fst (rc_wf c (notif_path n) empty_stat)) (rc_notifs c))
          | Merge => true
          end).
 
@@ -247,12 +278,13 @@ Definition c02_spec (c : rcase) : bool :=
         (listings well-formed, links_ok, links_meta, identity_faithful) and the first transfer did
         not fail, the second requests nothing, notifies nothing and does not fail. ---- *)
 Record rscase := {
-  rs_differ : differ; rs_A : list entry; rs_B : list entry;
+  rs_differ : differ; rs_filter : N; rs_A : list entry; rs_B : list entry;
   rs_err1 : bool; rs_W2 : list stat; rs_reqs2 : list bytes; rs_notifs2 : list notif; rs_err2 : bool }.
 
 Definition dec_rscase (input impl : sx) : option rscase :=
   match input, impl with
-  | SL [SN dc; SN _; a; b], SL [w1; e1; w2; SL rq; SL nt; e2] =>
+  | SL (SN dc :: SN _ :: a :: b :: rest), SL [w1; e1; w2; SL rq; SL nt; e2] =>
+    fc <- match rest with [] => Some 0 | [SN c] => Some c | _ => None end ;;
     A0 <- sx_list dec_entry a ;;
     B <- sx_list dec_entry b ;;
     W1 <- sx_list dec_stat w1 ;;
@@ -261,16 +293,16 @@ Definition dec_rscase (input impl : sx) : option rscase :=
     nts <- omap dec_notif nt ;;
     x1 <- sx_bool e1 ;;
     x2 <- sx_bool e2 ;;
-    Some {| rs_differ := differ_of dc; rs_A := map (fun s => (s, src_of A0 (st_path s))) W1; rs_B := B;
+    Some {| rs_differ := differ_of dc; rs_filter := fc; rs_A := map (fun s => (s, src_of A0 (st_path s))) W1; rs_B := B;
             rs_err1 := x1; rs_W2 := W2; rs_reqs2 := rqs; rs_notifs2 := nts; rs_err2 := x2 |}
   | _, _ => None
   end.
 
 Definition rs_model (c : rscase) : sx :=
-  let r1 := receive_abs Hid hdr Fresh (rs_differ c) (rs_A c) (rs_B c) in
+  let r1 := receive_abs_f (wf_of (rs_filter c)) Hid hdr Fresh (rs_differ c) (rs_A c) (rs_B c) in
   if ds_err r1 then SL [SN 1]
   else
-    let r2 := receive_abs Hid hdr Fresh DMetadata (map (fun s => (s, [])) (rs_W2 c)) (rs_B c) in
+    let r2 := receive_abs_f (wf_of (rs_filter c)) Hid hdr Fresh DMetadata (map (fun s => (s, [])) (rs_W2 c)) (rs_B c) in
     if ds_err r2 then SL [SN 0; SN 1]
     else SL [SN 0; SN 0; SL (map SB (ds_reqs r2)); SL (map enc_notif (sort_by notif_path (ds_notifs r2)))].
 
@@ -286,10 +318,17 @@ Definition symlink_modes_ok (B : list entry) : bool :=
   forallb (fun e => negb (mode_is_symlink (st_mode (fst e)))
                     || N.eqb (N.land (st_mode (fst e)) ModePerm) ModePerm) B.
 
+(* with the subtree-rejecting filter: no hard link across the border of the rejected subtree *)
+Definition links_respect_reject (code : N) (B : list entry) : bool :=
+  negb (N.eqb code 4)
+  || forallb (fun e => negb (is_hardlink (fst e))
+                       || Bool.eqb (rejected_path (st_path (fst e))) (rejected_path (st_linkname (fst e)))) B.
+
 Definition rs_hyps (c : rscase) : bool :=
+  let B' := filter_entries (wf_of (rs_filter c)) (rs_B c) in
   listing_ok_b (map fst (rs_A c)) && listing_ok_b (map fst (rs_B c)) && links_ok_b (rs_B c)
-  && links_meta_b (rs_B c) && identity_faithful_b (rs_differ c) (rs_A c) (rs_B c)
-  && symlink_modes_ok (rs_B c).
+  && links_meta_b (rs_B c) && links_meta_b B' && identity_faithful_b (rs_differ c) (rs_A c) B'
+  && symlink_modes_ok (rs_B c) && links_respect_reject (rs_filter c) (rs_B c).
 
 Definition c02_resync_spec (c : rscase) : bool :=
   rs_err1 c || negb (rs_hyps c)
@@ -331,19 +370,24 @@ Definition dec_hstep (s : sx) : option hstep :=
   | _ => None
   end.
 
-Record hcase := { hc_A : list entry; hc_S1 : list entry; hc_S2 : list entry; hc_steps : list hstep }.
+Record hcase := { hc_filter : N; hc_A : list entry; hc_S1 : list entry; hc_S2 : list entry; hc_steps : list hstep }.
 Definition dec_hcase (input impl : sx) : option hcase :=
   match input, impl with
-  | SL [a; s1; s2], SL steps =>
+  | SL (a :: s1 :: s2 :: rest), SL steps =>
+    fc <- match rest with [] => Some 0 | [SN c] => Some c | _ => None end ;;
     A <- sx_list dec_entry a ;; S1 <- sx_list dec_entry s1 ;; S2 <- sx_list dec_entry s2 ;;
     st <- omap dec_hstep steps ;;
-    Some {| hc_A := A; hc_S1 := S1; hc_S2 := S2; hc_steps := st |}
+    Some {| hc_filter := fc; hc_A := A; hc_S1 := S1; hc_S2 := S2; hc_steps := st |}
   | _, _ => None
   end.
 
-(* one step of the model chain: result + the destination listed again *)
-Definition h_step (A S : list entry) : dstate * list entry :=
-  let r := receive_abs Hid hdr Fresh DMetadata A S in (r, dest_listing S (ds_map r)).
+(* the destination map listed again: every entry it holds, in path order, under its path *)
+Definition dmap_listing (D : dmap) : list entry :=
+  map (fun kv => (set_path (de_stat (snd kv)) (fst kv), de_bytes (snd kv))) (sort_by fst D).
+
+(* one step of the model chain (through the receiver's filter): result + the destination listed again *)
+Definition h_step (code : N) (A S : list entry) : dstate * list entry :=
+  let r := receive_abs_f (wf_of code) Hid hdr Fresh DMetadata A S in (r, dmap_listing (ds_map r)).
 
 Definition kp_path (x : N * bytes) : bytes := snd x.
 Definition enc_kp (x : N * bytes) : sx := SL [SN (fst x); SB (snd x)].
@@ -352,15 +396,15 @@ Definition step_obs (failed : bool) (reqs : list bytes) (nts : list (N * bytes))
   else SL [SN 0; SL (map SB (sort_by (fun p => p) reqs)); SL (map enc_kp (sort_by kp_path nts))].
 
 Definition h_model (c : hcase) : sx :=
-  let '(r1, A1) := h_step (hc_A c) (hc_S1 c) in
+  let '(r1, A1) := h_step (hc_filter c) (hc_A c) (hc_S1 c) in
   let o1 := step_obs (ds_err r1) (ds_reqs r1) (map (fun n => (kind_code (notif_kind n), notif_path n)) (ds_notifs r1)) in
   if ds_err r1 then SL [o1]
   else
-    let '(r2, A2) := h_step A1 (hc_S2 c) in
+    let '(r2, A2) := h_step (hc_filter c) A1 (hc_S2 c) in
     let o2 := step_obs (ds_err r2) (ds_reqs r2) (map (fun n => (kind_code (notif_kind n), notif_path n)) (ds_notifs r2)) in
     if ds_err r2 then SL [o1; o2]
     else
-      let '(r3, _) := h_step A2 (hc_S2 c) in
+      let '(r3, _) := h_step (hc_filter c) A2 (hc_S2 c) in
       SL [o1; o2; step_obs (ds_err r3) (ds_reqs r3) (map (fun n => (kind_code (notif_kind n), notif_path n)) (ds_notifs r3))].
 
 (* a REQ id is the index of the STAT in the sender's stream = index in the source listing *)
@@ -375,18 +419,30 @@ Definition h_listing_ok (E : list entry) : bool :=
   listing_ok_b (map fst E) && links_ok_b E && links_meta_b E && symlink_modes_ok E.
 
 Definition h_hyps (c : hcase) : bool :=
+  let F := filter_entries (wf_of (hc_filter c)) in
   h_listing_ok (hc_A c) && h_listing_ok (hc_S1 c) && h_listing_ok (hc_S2 c)
-  && identity_faithful_b DMetadata (hc_A c) (hc_S1 c) && identity_faithful_b DMetadata (hc_S1 c) (hc_S2 c).
+  && links_meta_b (F (hc_S1 c)) && links_meta_b (F (hc_S2 c))
+  && identity_faithful_b DMetadata (hc_A c) (F (hc_S1 c)) && identity_faithful_b DMetadata (F (hc_S1 c)) (F (hc_S2 c))
+  && links_respect_reject (hc_filter c) (hc_S1 c) && links_respect_reject (hc_filter c) (hc_S2 c)
+  && links_respect_reject (hc_filter c) (hc_A c).
 
-Definition shows (S : list entry) (st : hstep) : bool := rows_eqb (map row_of_entry S) (hs_rows st).
+(* what the destination must show after a synchronisation of the source state S through the
+   receiver's filter: every entry of S the filter does not reject, with the stat AS REWRITTEN by the
+   filter — and, where the filter rejects, what the destination held at the start (A0), untouched *)
+Definition keeps (code : N) (e : entry) : bool := fst (wf_of code (st_path (fst e)) (fst e)).
+Definition expected_rows (code : N) (A0 S : list entry) : list sx :=
+  map row_of_entry
+    (sort_by (fun e : entry => st_path (fst e))
+       (filter (keeps code) (filter_entries (wf_of code) S) ++ filter (fun e => negb (keeps code e)) A0)).
+Definition shows (code : N) (A0 S : list entry) (st : hstep) : bool := rows_eqb (expected_rows code A0 S) (hs_rows st).
 
 Definition c02_history_spec (c : hcase) : bool :=
   negb (h_hyps c)
   || match hc_steps c with
      | [s1; s2; s3] =>
-       negb (hs_failed s1) && shows (hc_S1 c) s1
-       && negb (hs_failed s2) && shows (hc_S2 c) s2
-       && negb (hs_failed s3) && shows (hc_S2 c) s3
+       negb (hs_failed s1) && shows (hc_filter c) (hc_A c) (hc_S1 c) s1
+       && negb (hs_failed s2) && shows (hc_filter c) (hc_A c) (hc_S2 c) s2
+       && negb (hs_failed s3) && shows (hc_filter c) (hc_A c) (hc_S2 c) s3
        && match hs_reqs s3 with [] => true | _ => false end
        && match hs_notifs s3 with [] => true | _ => false end
      | _ => false
